@@ -132,6 +132,8 @@ pub struct ConcCase {
     pub solo: Vec<(u64, usize)>,
     /// final drain-then-probe (C10)
     pub final_probes: Vec<(usize, usize, u8)>,
+    /// C21: after the base run, re-execute it with a solo window at every (step, thread)
+    pub solo_sweep: bool,
 }
 
 fn strategy_to_json(s: &Strategy) -> J {
@@ -246,6 +248,7 @@ impl ConcCase {
                         .collect(),
                 ),
             )
+            .set("solo_sweep", self.solo_sweep)
     }
     pub fn from_json(j: &J) -> Option<Self> {
         let pair = |e: &J| -> Option<(u64, u64)> {
@@ -287,6 +290,7 @@ impl ConcCase {
                     Some((a.first()?.u()? as usize, a.get(1)?.u()? as usize, a.get(2)?.u()? as u8))
                 })
                 .collect(),
+            solo_sweep: j.get("solo_sweep").and_then(J::b).unwrap_or(false),
         })
     }
 }
@@ -962,6 +966,7 @@ fn gen_strategy(rng: &mut Rng, n: usize, expected: u64, stall_bias: bool) -> Str
 }
 
 pub struct GenOpts {
+    pub thorough: bool,
     pub custom: bool,
     pub solo_points: usize,
     pub stall_bias: bool,
@@ -1062,7 +1067,18 @@ pub fn gen_case(rng: &mut Rng, kind: &str, o: &GenOpts) -> ConcCase {
                     parts.push((rng.below(parts_n), t));
                 }
             }
-            deals.push(Deal { k: rng.below(4), order, parts });
+            let k = rng.below(4);
+            if alloc_all && rng.chance(1, 2) {
+                // variant: the huge frame is already split when the threads start (its last base
+                // frame was freed during setup), so concurrent frees of its parts meet in the same
+                // bitfield without going through the split (and its known retry panic)
+                let huges = cfg.frames / HUGE_FRAMES;
+                let h = k % huges;
+                setup.push(Call::Put { frame: h * HUGE_FRAMES + HUGE_FRAMES - 1, order: 0, class: 0, slot: None });
+                // the environment now holds the buddy remainder of that huge frame; its first
+                // (largest) piece is block number h again
+            }
+            deals.push(Deal { k, order, parts });
             if rng.chance(1, 3) {
                 deals.push(Deal { k: rng.below(4), order: 0, parts: vec![(rng.below(512), rng.below(n))] });
             }
@@ -1292,6 +1308,8 @@ pub fn gen_case(rng: &mut Rng, kind: &str, o: &GenOpts) -> ConcCase {
         schedule: Vec::new(),
         casfail_den,
         casfail_at: None,
+        // systematic solo windows are expensive (steps x threads re-executions): rare in the quick tier
+        solo_sweep: o.solo_points > 0 && total_ops <= 5 && rng.chance(1, if o.thorough { 60 } else { 600 }),
         solo,
         final_probes,
     }
